@@ -52,8 +52,8 @@ def build_dataset(ctx, case, via='function', index=0, upto=('classify', 'grid'))
             os.remove(f)
     for argv in (
         ['load', db, '-p', paths[0], '-e', paths[1], '-z', paths[2], '--timezone', case.get('tz', 'UTC')],
-        ['classify', db, '-s', repr(float(case['sthr'])), '-j', repr(float(case['jthr']))],
-        ['set-zeta-grid', db, '-d', repr(float(gs))],
+        ['classify', db, '-s', data.num_arg(case['sthr'], index), '-j', data.num_arg(case['jthr'], index + 1)],
+        ['set-zeta-grid', db, '-d', data.num_arg(gs, index + 2)],
     ):
         status, exc = data.cli(argv)
         if exc is not None or status != 0:
